@@ -332,6 +332,6 @@ func init() {
 		Real:        []string{"smtp.Server.Serve/handleConn", "smtp.Conn handleData/handleDataLMTP/handleBdat/reset/Close", "dataReader", "io.Pipe", "lineLimitReader", "net/textproto", "bufio"},
 		Stub:        []string{"net.Listener (SimListener)", "net.Conn (SimConn) with cut/RST/half-close/stall faults", "Backend/Session (SimBackend, reads to the end, propagates reader errors)", "clock (synctest)", "SMTP client (raw driver)"},
 		Assumptions: []string{"exhaustive over cut offsets of the generated corpus, not over all conversations", "reply positions are static because every command of the corpus is valid; replies are read from what the server wrote, delivered or not"},
-		QuickRuns:   320, ThoroughRuns: 40000,
+		QuickRuns:   900, ThoroughRuns: 60000,
 	})
 }
